@@ -59,4 +59,40 @@ pub(crate) mod verif_kani {
         rb.buf = NonNull::new(p).unwrap();
         rb.cap = CAP;
     }
+
+    #[kani::proof]
+    #[kani::unwind(20)]
+    fn rb_reserve_grow_cap9_to_17() {
+        let (mut rb, init, head, tail, len) = mk::<8, 9>();
+        // amount such that growth is needed and new capacity is 17: free < amount <= free + 8 ... use concrete extra
+        let free = 8 - len;
+        rb.reserve(free + 1);
+        assert!(rb.cap == 17);
+        assert!(rb.head == 0 && rb.tail == len);
+        assert!(rb.len() == len);
+        let i: usize = kani::any();
+        kani::assume(i < len);
+        let got = unsafe { *rb.buf.as_ptr().add(i) };
+        assert!(got == init[(head + i) % 9]);
+    }
+
+    #[kani::proof]
+    #[kani::unwind(20)]
+    fn rb_extend_fill_drop_cap17() {
+        let (mut rb, init, head, tail, len) = mk::<16, 17>();
+        let n: usize = kani::any();
+        kani::assume(n <= 16 - len);
+        let b: u8 = kani::any();
+        rb.extend_and_fill(b, n);
+        assert!(rb.len() == len + n && rb.head == head);
+        let d: usize = kani::any();
+        kani::assume(d <= len + n);
+        rb.drop_first_n(d);
+        assert!(rb.len() == len + n - d);
+        let i: usize = kani::any();
+        kani::assume(i < len + n - d);
+        let k = i + d;
+        let want = if k < len { init[(head + k) % 17] } else { b };
+        assert!(rb.get(i) == Some(want));
+    }
 }
